@@ -370,7 +370,7 @@ def raw_json_variant(calls, root):
                 scope[j] = None
             scope[lvl] = c[1]
             depth = lvl
-        if kind == 'meta':
+        if kind == 'meta' and isinstance(c[1].get('k'), str):
             eff = c[2] or spec.inherited_encoding(scope, depth)
             body = ('{"k": "%s"}\n' % c[1]['k']).encode(eff)
             out.append(spec.header('.' * (depth + 1) + 'meta',
